@@ -233,6 +233,33 @@ func init() {
 		fmt.Fprintf(&out, "/-- under a limit, `Set` refuses when this holds of the number of targets -/\ndef setLimitTargetsGuard (nTargets limit : Int) : Bool := %s\n\n", limitTargets)
 		fmt.Fprintf(&out, "/-- under a limit, `Set` refuses a target when this holds of its distinct update paths and its deletes -/\ndef setLimitOpsGuard (nUpdates nRemoves limit : Int) : Bool := %s\n\n", limitOps)
 
+		// Subscribe: field selections through a field of message type (x.Prefix.Target, x.Path.Target):
+		// each is a nil dereference waiting for a request that leaves the message out
+		const sub = "pkg/northbound/gnmi/v2/subscribe.go"
+		subf := parseFile(sub)
+		var deep []string
+		for _, fn := range []string{"splitSubscribeRequest", "copyPrefix", "processSubscribeRequest"} {
+			fd := findFunc(subf, fn)
+			if fd == nil {
+				fail("%s: func %s not found", sub, fn)
+				continue
+			}
+			ast.Inspect(fd.Body, func(n ast.Node) bool {
+				if se, ok := n.(*ast.SelectorExpr); ok {
+					if inner, ok := se.X.(*ast.SelectorExpr); ok {
+						if _, isIdent := inner.X.(*ast.Ident); isIdent {
+							msgField := inner.Sel.Name == "Prefix" || inner.Sel.Name == "Path" || inner.Sel.Name == "Subscribe"
+							if msgField {
+								deep = append(deep, fn+": "+fullExpr(se))
+							}
+						}
+					}
+				}
+				return true
+			})
+		}
+		fmt.Fprintf(&out, "/-- field selections through the message-typed fields Prefix / Path / Subscribe in the Subscribe handler (%s) -/\ndef subscribeDerefChains : List String := %s\n\n", sub, leanStrList(deep))
+
 		// getTargetInfo: does a non-empty prefix target replace the per-path target?
 		gti := findFunc(sf, "getTargetInfo")
 		prefixWins := false
